@@ -1,21 +1,109 @@
 //@target src/decoder/adsb/ais.rs
 //@props C07
+//@assume composition for C07: ais(frame) = [ia5(c_k) for the eight 6-bit slices c_k of bits 41..88, in order] with blanks removed.  Proved in three pieces because a String of symbolic length does not finish in CBMC: C07.ia5 (character map for every code), C07.ais.slices (the eight codes handed to ia5 are exactly the eight slices, in order, and all eight results are kept in order when none is blank), C07.ais.omit (blank results are dropped, others keep their order; BOUNDED to 8 concrete blank patterns - the dropping itself is std Iterator::filter)
 
 #[cfg(kani)]
 mod verif_c07_ais {
     use super::*;
+    use crate::verif_spec as vs;
     use crate::verif_spec::h::*;
 
-    //@ob id=C07.ais props=C07,C01 tier=quick kind=harness fns=adsb/ais.rs:ais,adsb/ais.rs:ia5 draw=frame28
-    //@region all long frames (all 2^48 character fields x every other bit): callsign = the eight 6-bit characters in order, 1-26 -> A-Z, 48-57 -> 0-9, every other code omitted
+    //@ob id=C07.ia5 props=C07 tier=quick kind=harness fns=adsb/ais.rs:ia5
+    //@region every u32 character code: 1-26 -> 'A'-'Z', 48-57 -> '0'-'9', everything else blank (omitted)
+    #[kani::proof]
+    fn c07_ia5() {
+        let c: u32 = kani::any();
+        let got = ia5(c);
+        match vs::spec_ia5(c) {
+            Some(b) => assert!(got == b as char, "mapped character"),
+            None => assert!(got == ' ', "unmapped code is blank (omitted from the callsign)"),
+        }
+        kani::cover!(c == 26, "Z");
+        kani::cover!(true, "reach_end");
+    }
+
+    static mut CALLS: usize = 0;
+    static mut CODES: [u32; 8] = [0; 8];
+    static mut BLANK_MASK: u8 = 0;
+    fn ia5_rec(ch: u32) -> char {
+        unsafe {
+            let k = CALLS;
+            CALLS += 1;
+            if k < 8 {
+                CODES[k] = ch;
+            }
+            if k < 8 && (BLANK_MASK >> k) & 1 == 1 { ' ' } else { (b'A' + (k as u8 % 26)) as char }
+        }
+    }
+
+    //@ob id=C07.ais.slices props=C07,C01 tier=quick kind=harness fns=adsb/ais.rs:ais draw=frame28
+    //@region all 112-bit frames (all 2^48 character fields): the character decoder is asked about exactly the eight 6-bit slices of bits 41-88, in order, and the eight results appear in that order
     #[kani::proof]
     #[kani::unwind(34)]
-    fn c07_ais() {
+    #[kani::stub(crate::decoder::adsb::ais::ia5, ia5_rec)]
+    fn c07_ais_slices() {
         let m = any_frame28();
-        // contract of `ais` in harness form (an `ensures` over Option<String> makes Kani's contract
-        // wrapper fail internally): requires valid_msg && len == 28; ensures callsign_ok
         let r = ais(&m);
-        assert!(crate::verif_spec::callsign_ok(&m, &r), "callsign = eight 6-bit characters in order, unmapped codes omitted");
+        unsafe {
+            assert!(CALLS == 8, "eight characters");
+            let mut k = 0;
+            while k < 8 {
+                assert!(CODES[k] == vs::bits(&m, 41 + 6 * k as u32, 46 + 6 * k as u32), "k-th character code = k-th 6-bit slice of bits 41-88");
+                k += 1;
+            }
+        }
+        assert!(r.as_deref().map_or(false, |s| str_eq(s, "ABCDEFGH")), "all eight characters kept, in order");
+        kani::cover!(true, "reach_end");
+    }
+
+    fn expect_for(mask: u8) -> ([u8; 8], usize) {
+        let mut out = [0u8; 8];
+        let mut n = 0;
+        let mut k = 0;
+        while k < 8 {
+            if (mask >> k) & 1 == 0 {
+                out[n] = b'A' + k as u8;
+                n += 1;
+            }
+            k += 1;
+        }
+        (out, n)
+    }
+
+    //@ob id=C07.ais.omit props=C07 tier=quick kind=harness fns=adsb/ais.rs:ais bounded=8-blank-patterns
+    //@region blank characters are omitted and the others keep their order, for the blank patterns 00000000, 11111111, 00000001, 10000000, 01011010, 10100101, 00111100, 11000011 (concrete frame; the dropping is std Iterator::filter + collect)
+    #[kani::proof]
+    #[kani::unwind(34)]
+    #[kani::stub(crate::decoder::adsb::ais::ia5, ia5_rec)]
+    fn c07_ais_omit() {
+        let m = [0u32; 28];
+        let masks: [u8; 8] = [0x00, 0xFF, 0x01, 0x80, 0x5A, 0xA5, 0x3C, 0xC3];
+        let mut i = 0;
+        while i < 8 {
+            unsafe {
+                CALLS = 0;
+                BLANK_MASK = masks[i];
+            }
+            let r = ais(&m);
+            let (exp, n) = expect_for(masks[i]);
+            let ok = match &r {
+                Some(s) => {
+                    let b = s.as_bytes();
+                    let mut same = b.len() == n;
+                    let mut k = 0;
+                    while same && k < n {
+                        if b[k] != exp[k] {
+                            same = false;
+                        }
+                        k += 1;
+                    }
+                    same
+                }
+                None => false,
+            };
+            assert!(ok, "blank characters omitted, others in order");
+            i += 1;
+        }
         kani::cover!(true, "reach_end");
     }
 }
